@@ -263,9 +263,13 @@ func c16(run *ev.Run, tier string) {
 		{"replaces", true, func(c *nfpm.Config, v string) { c.Replaces = []string{"first", v, "middle", v, "next-to-last", "last"} }, func(c *nfpm.Config) []string { return c.Replaces }},
 		{"provides", true, func(c *nfpm.Config, v string) { c.Provides = []string{"first", v, "middle", v, "next-to-last", "last"} }, func(c *nfpm.Config) []string { return c.Provides }},
 		{"depends", true, func(c *nfpm.Config, v string) { c.Depends = []string{"first", v, "middle", v, "next-to-last", "last"} }, func(c *nfpm.Config) []string { return c.Depends }},
-		{"recommends", true, func(c *nfpm.Config, v string) { c.Recommends = []string{"first", v, "middle", v, "next-to-last", "last"} }, func(c *nfpm.Config) []string { return c.Recommends }},
+		{"recommends", true, func(c *nfpm.Config, v string) {
+			c.Recommends = []string{"first", v, "middle", v, "next-to-last", "last"}
+		}, func(c *nfpm.Config) []string { return c.Recommends }},
 		{"suggests", true, func(c *nfpm.Config, v string) { c.Suggests = []string{"first", v, "middle", v, "next-to-last", "last"} }, func(c *nfpm.Config) []string { return c.Suggests }},
-		{"conflicts", true, func(c *nfpm.Config, v string) { c.Conflicts = []string{"first", v, "middle", v, "next-to-last", "last"} }, func(c *nfpm.Config) []string { return c.Conflicts }},
+		{"conflicts", true, func(c *nfpm.Config, v string) {
+			c.Conflicts = []string{"first", v, "middle", v, "next-to-last", "last"}
+		}, func(c *nfpm.Config) []string { return c.Conflicts }},
 		{"overrides.deb.depends", true, func(c *nfpm.Config, v string) {
 			c.Overrides = map[string]*nfpm.Overridables{"deb": {Depends: []string{"first", v, "middle", v, "next-to-last", "last"}}}
 		}, func(c *nfpm.Config) []string { return c.Overrides["deb"].Depends }},
